@@ -51,11 +51,30 @@ struct c05_session : public vsim_session {
   // metadump <bias> <grids 0|1>
   bool exec_extra(std::string const &cmd, std::vector<std::string> const &a, std::istream &) override
   {
-    if (cmd != "metadump" && cmd != "metatraj" && cmd != "metatarget") return false;
+    if (cmd != "metadump" && cmd != "metatraj" && cmd != "metatarget" && cmd != "metapmf") return false;
     std::ostream &o = *out;
     colvarbias *b0 = cvm::bias_by_name(a[0]);
     colvarbias_meta *b = dynamic_cast<colvarbias_meta *>(b0);
     if (!b) { o << "META none\n"; return true; }
+    if (cmd == "metapmf") {
+      // write the free-energy file (write_pmf) and print its name and the values read back from it
+      b->write_pmf();
+      std::string const fname = b->output_prefix +
+        (b->dump_fes_save ? "." + cvm::to_str(cvm::step_absolute()) : "") + ".pmf";
+      o << "PMFFILE " << fname << "\n";
+      std::ifstream f(fname.c_str());
+      std::string l;
+      o << "PMF";
+      while (std::getline(f, l)) {
+        if (l.empty() || l[0] == '#') continue;
+        std::istringstream is(l);
+        double v = 0.0, last = 0.0; size_t nv = 0;
+        while (is >> v) { last = v; nv++; }
+        if (nv > 0) o << " " << vs_hex(last);
+      }
+      o << "\n";
+      return true;
+    }
     if (cmd == "metatarget") {
       // ebMeta: the target distribution as used (after the normalisation done at initialisation)
       o << "TARGET";
